@@ -869,7 +869,7 @@ pub fn run_history(rng : &mut Rng, run : &mut HistRun, prop : &str, tally : &mut
             if tally.wants_sample() && obs.kind == "build" && run.successful_builds > 0 && obs.ran.len() > 0
             {
                 tally.sample(J::obj(vec![
-                    ("rules_file", J::Str(String::from_utf8_lossy(&run.world.sys.read_file(world::RULES_FILE).unwrap_or(vec![])).to_string())),
+                    ("rules_file", J::Str(run.world.rules_text())),
                     ("history", J::strs(&run.world.ops)),
                     ("last_invocation", world::obs_summary(&obs)),
                 ]));
@@ -893,7 +893,7 @@ pub fn detail(run : &HistRun, outcome : &HistOutcome) -> J
 {
     J::obj(vec![
         ("graph_shape", J::s(&run.graph_shape)),
-        ("rules_file", J::Str(String::from_utf8_lossy(&run.world.sys.read_file(world::RULES_FILE).unwrap_or(vec![])).to_string())),
+        ("rules_file", J::Str(run.world.rules_text())),
         ("history", J::strs(&outcome.ops)),
         ("schedule", J::s(if run.sched_random { "random" } else { "serial" })),
     ])
